@@ -459,14 +459,17 @@ class MoneyMeta(QuantityMeta):
                 smallest_fraction = Decimal(10) ** -minor_unit
         else:
             smallest_fraction = Decimal(smallest_fraction)
+            if smallest_fraction <= 0:
+                raise ValueError("'smallest_fraction' must be > 0.")
+            multiple = 1 / smallest_fraction
             if minor_unit is None:
-                if smallest_fraction <= 0:
-                    raise ValueError("'smallest_fraction' must be > 0.")
-                multiple = 1 / smallest_fraction
                 if not (multiple.denominator == 1 and multiple.numerator > 1):
                     raise ValueError("1 must be an integer multiple of given "
                                      "'smallest_fraction'.")
             else:
+                if multiple.denominator != 1:
+                    raise ValueError("1 must be an integer multiple of given "
+                                     "'smallest_fraction'.")
                 if minor_unit != smallest_fraction.precision:
                     raise ValueError(
                         "'smallest_fraction' does not fit 'minor_unit'.")
